@@ -156,6 +156,28 @@ def tr_bookkeeping(mod):
     return {"b_apply_upstreams_args_kwargs": True, "b_derive_sets_orig": True}
 
 
+# ---------------------------------------------------------------- __setstate__ (pickling round trip)
+def tr_setstate(mod):
+    """TaskExpression.__setstate__ (inherited by SchedulerExpression): does it rebuild
+    `_upstreams = [self.args, self.kwargs]`?  Everything else in it is pinned.  SimpleExpression.__setstate__ must
+    rebuild (pinned)."""
+    import hashlib
+    fn = find_func(mod, "__setstate__", "TaskExpression")
+    stmts = [src(x) for x in body_nodoc(fn)]
+    reset = "self.call_hash = None"
+    rebuild = "self._upstreams = [self.args, self.kwargs]"
+    if reset not in stmts:
+        fail("TaskExpression.__setstate__: call_hash is not reset; model does not cover this", fn)
+    rebuilds = rebuild in stmts
+    if rebuilds:
+        need = [i for i, x in enumerate(stmts) if x.startswith("self.args =") or x.startswith("self.kwargs =")]
+        if len(need) != 2 or stmts.index(rebuild) < max(need):
+            fail("TaskExpression.__setstate__: _upstreams is rebuilt before args/kwargs are restored", fn)
+    core = [x for x in stmts if x not in (reset, rebuild)]
+    core_pin = hashlib.sha256("\n".join(core).encode()).hexdigest()[:16]
+    return rebuilds, core_pin
+
+
 # ---------------------------------------------------------------- _evaluate_apply callback
 def find_nested(fn, name):
     for n in ast.walk(fn):
@@ -260,6 +282,7 @@ def translate(pins: dict | None = None):
     finder = tr_finder(find_func(db, "_find_arg_upstreams", "RedunBackendDb"))
     segs, loop_pin = tr_record_args(find_func(db, "_record_args", "RedunBackendDb"))
     bk = tr_bookkeeping(ex)
+    rebuilds, setstate_core = tr_setstate(ex)
     evap = find_func(sc, "_evaluate_apply", "Scheduler")
     copy_sched = tr_callback(evap)
     catch = find_func(sc, "catch")
@@ -277,7 +300,8 @@ def translate(pins: dict | None = None):
         "Job.reject": pin(find_func(sc, "reject", "Job")),
         "functools.seq": pin(find_func(ft, "seq")),
         "TaskExpression.__init__": pin(find_func(ex, "__init__", "TaskExpression")),
-        "TaskExpression.__setstate__": pin(find_func(ex, "__setstate__", "TaskExpression")),
+        "TaskExpression.__setstate__-core": setstate_core,
+        "SimpleExpression.__setstate__": pin(find_func(ex, "__setstate__", "SimpleExpression")),
         "Expression.__setstate__": pin(find_func(ex, "__setstate__", "Expression")),
         "Expression.__init__": pin(find_func(ex, "__init__", "Expression")),
     }
@@ -305,7 +329,8 @@ def translate(pins: dict | None = None):
     out.append("Definition gen_bookkeeping : bookkeeping := {| " + "; ".join(f"{k} := {cqb(v)}" for k, v in bk.items()) + " |}.")
     out.append("Definition gen_segs : list seg := [" + "; ".join(segs) + "].")
     out.append(f"Definition gen_variant : variant := {{| v_copy_sched := {cqb(copy_sched)}; "
-               f"v_derive_cached := {cqb(derive_cached)} |}}.")
+               f"v_derive_cached := {cqb(derive_cached)}; v_forget := false |}}.")
+    out.append(f"Definition gen_setstate : setstate := {{| ss_rebuilds_upstreams := {cqb(rebuilds)} |}}.")
     out.append("")
     out.append("Lemma C21_tie_finder : gen_finder = model_finder. Proof. reflexivity. Qed.")
     out.append("Lemma C21_tie_bookkeeping : gen_bookkeeping = model_bookkeeping. Proof. reflexivity. Qed.")
@@ -332,7 +357,19 @@ def translate(pins: dict | None = None):
         out.append("Lemma C21_tie_variant : gen_variant = shipped \\/ gen_variant = fixed.")
         out.append("Proof. first [left; reflexivity | right; reflexivity]. Qed.")
     out.append("")
-    return "\n".join(out), {"variant": variant, "copy_sched": copy_sched, "derive_cached": derive_cached, "pins": got,
+    out.append("(** Pickling round trip of result expressions read back from the cache. *)")
+    if rebuilds:
+        out.append("Lemma C21_tie_setstate : gen_setstate = model_setstate. Proof. reflexivity. Qed.")
+        out.append("Theorem C21_gen_roundtrip_invariant : forall W e st,")
+        out.append("  run_prog W (deser_variant gen_setstate gen_variant) e st = run_prog W gen_variant e st.")
+        out.append("Proof. intros W e st. exact (C21_roundtrip_invariant W gen_variant e st eq_refl). Qed.")
+    else:
+        out.append("Lemma C21_tie_setstate : gen_setstate = forgetful_setstate. Proof. reflexivity. Qed.")
+        out.append("Theorem C21_gen_roundtrip_refuted :")
+        out.append("  ~ rows_complete cw (run_all cw (deser_variant gen_setstate fixed) witness_deser empty_state).")
+        out.append("Proof. exact C21_roundtrip_refuted. Qed.")
+    out.append("")
+    return "\n".join(out), {"rebuilds": rebuilds, "variant": variant, "copy_sched": copy_sched, "derive_cached": derive_cached, "pins": got,
                             "segs": segs}
 
 
